@@ -703,7 +703,15 @@ class ExcludeRegionState(object):  # pylint: disable=too-many-instance-attribute
             # of the X, Y or Z values are provided, even if the provided values are identical to the
             # current position.  This matches the Marlin auto-retract detection behavior (at least
             # for Marlin 1.1.9).
+            if (deltaE > 0):
+                # The printer's extruder is still at the prior position, so a pending recovery
+                # must be generated relative to that position (not the position after this command)
+                eAxis.current = priorE
+
             returnCommands = self._processNonMove(cmd, deltaE)
+
+            if (deltaE > 0):
+                eAxis.current = extruderPosition
         elif (self.isAnyPointExcluded(*xyPairs)):
             returnCommands = self._processExcludedMove(cmd, deltaE)
         elif (self.excluding):
@@ -714,7 +722,11 @@ class ExcludeRegionState(object):  # pylint: disable=too-many-instance-attribute
         elif (deltaE != 0):
             # Recover any retraction recorded from the excluded region before the next
             # extrusion occurs
+            # As above, generate a pending recovery relative to the prior extruder position,
+            # otherwise the recovery would consume the extrusion of the move itself
+            eAxis.current = priorE
             returnCommands = self.recoverRetractionIfNeeded(cmd, False)
+            eAxis.current = extruderPosition
         else:
             returnCommands = [cmd]
 
